@@ -18,7 +18,7 @@ ASSUMPTIONS = [
     "a Protocol member written as a plain `def` annotated AsyncIterator[...] counts as async-iterator nature (the correct typing spelling)",
     "annotations are compared as the strings found in __annotations__ (the three artefacts are rendered from the same text)",
 ]
-BOUND = {"quick": "14x14 shape pairs x 19 tag patterns + 51 in-process histories", "thorough": "same + 3-operation documents over the 4 overload/stream shapes (576 more)"}
+BOUND = {"quick": "15x15 shape pairs x 19 tag patterns + 51 in-process histories", "thorough": "same + 3-operation documents over the 4 overload/stream shapes (576 more)"}
 CHUNK = 4
 
 P = ops.param
